@@ -668,6 +668,21 @@ def zc_episode(g, kind, steps):
         ep.define(v, ks, [m] if kind == "dense0" else [])
         ep.views.add(v)
         views.append(v)
+    if views and len(ks) >= 2 and r.random() < 0.6:
+        # a static Flip of the fresh view over its first chunks only: the chunks above the range are carried over from the view; the
+        # result is then edited in exactly those chunks (and in the flipped ones)
+        v = r.choice(views)
+        d = g.fresh("d")
+        cutk = r.choice(ks[1:])
+        g.emit("sflip %s %s %d %d" % (d, v, ks[0] * CH + r.choice([0, 5, 1000]), cutk * CH - r.choice([0, 1, 70000 if cutk > ks[0] + 1 else 1])))
+        ep.define(d, set(ks) | set(range(ks[0], cutk)), [m])
+        ep.check()
+        for k in [kk for kk in ks if kk >= cutk][:3] + [ks[0]]:
+            g.emit("%s %s %d" % (r.choice(["add", "rem", "cadd", "crem"]), d, k * CH + g.lowval()))
+            g.emit("flip %s %d %d" % (d, k * CH + 2000, k * CH + 2003))
+            g.emit("zsame %s" % m)
+        g.count("zc:sflip-first")
+        ep.check()
     if views and r.random() < 0.5:
         # the view united with itself and with a bitmap derived from it (the very same borrowed container on both sides), then edits
         v = r.choice(views)
